@@ -236,8 +236,12 @@ theorem wrapLabel {C : Code} {ctx : List BI} {σ : VM} {l : Label} {bp : Nat} {I
         exact ⟨τ, h1, h2, h3, ex, t, hf', hcd⟩
   | cont lb =>
     obtain ⟨τ, h1, h2, h3, ex, t, hf, hcd⟩ := hsim
-    simp only [findBrk, Bool.and_false] at hf
-    exact ⟨τ, h1, h2, h3, ex, t, by simpa using hf, hcd⟩
+    simp only [findBrk] at hf
+    have hf' : findBrk lb false ctx = some (ex, t) := by
+      by_cases hl : lb = some l
+      · simp [hl] at hf
+      · simpa [hl] using hf
+    exact ⟨τ, h1, h2, h3, ex, t, hf', hcd⟩
   | ret v => exact hsim
   | thr v => exact hsim
   | fatal => exact hsim
